@@ -197,6 +197,9 @@ package metadatapart
 //@ func (*metadataPartStorage).AppendObject$1
 //@ mode effects
 //@ effect[C08:one-reference-per-shared-existing-part] every mbs.metadataStore.TryAddPartReferences(_, _, $ids) if same($ids, partIDs) where existingObject != nil && len($ids) == len(existingObject.Parts)
+//@ effect[C08:append-that-creates-a-version-acquired-its-references] every mbs.metadataStore.AppendObject(_, _, _, _, _)
+//@     if existingObject != nil && (versioningEnabled || !metadatastore.IsNullVersionID(existingObject.VersionID))
+//@     needs before mbs.metadataStore.TryAddPartReferences(_, _, _) -> ($ok, $e) where $ok && $e == nil
 //@ effect[C08:no-append-when-the-references-were-refused] every mbs.metadataStore.TryAddPartReferences(_, _, $ids) -> ($ok, $e) if same($ids, partIDs) && (!$ok || $e != nil)
 //@     forbids after mbs.metadataStore.AppendObject(_, _, _, _, _)
 
